@@ -32,6 +32,8 @@ CLAIMED = {
          "Seeded search over sequences of open / bind (explicit, second address, wildcard, port 0, privileged, foreign, wrong family, a currently held endpoint) / listen / connect with implicit bind / close / re-open / move / destroy / accept and close of accepted sockets over TCP sockets, acceptors and UDP sockets on single-, dual-homed, dual-stack and IPv6-only nodes; the guarded knob moves the ephemeral counter next to its wrap in 40 % of runs. After every step the error code must be in the set the statement allows, the resolved endpoint and local_endpoint must match a reference registry, and probe connects / datagrams to every endpoint ever bound must reach exactly the registry's current holder.", "3.11"),
  "C14": ("resolver", "exploration", "deterministic simulation: seeded resolve/cancel histories vs the completion-time recurrence, plus a small exhaustive sweep",
          "Seeded search over sequences of async_resolve (host names with per-name latency, 0-3 addresses or an error; IPv4/IPv6 literals; unknown names; numeric ports) and cancel on TCP and UDP resolvers, issued at the same instant, microseconds to 400 ms apart, 100-700 ns apart, and from inside completion handlers; every completion is compared with the recurrence max(request, previous pending lookup)+latency (+<=1 us per literal pending), request order, exactly-once, the configured result, and hostname_lookup call counts; plus every sequence of up to 3 (quick) / 4 (thorough) lookups over a small alphabet with a cancel at every position.", "3.14"),
+ "C16": ("apps_http", "exploration", "deterministic simulation: HTTP server under every cut of the request byte stream, with early client EOF and stop() placements",
+         "Seeded search over request sequences (handler, ranged and whole content, redirect, unknown and stalling paths; with and without Connection: close; keep-alive on and off; malformed inputs), all ways of cutting the client byte stream into writes spaced in virtual time (byte-at-a-time, inside the method, inside CRLFCRLF, several requests per write), pipelining depths, 1-4 successive or overlapping clients, client EOF at generated offsets, and stop() from a timer, at a step-hook boundary or after quiescence, over loss-free routes with varied latency, bandwidth and MTU. A reference model computes the expected response stream per connection; responses are matched by index and checked byte-exactly, with content-length framing, close behaviour, next-client acceptance and port release after stop().", "3.16"),
 }
 
 NOT_YET = "not claimed yet: the engine for this property is still under construction in this tree"
